@@ -28,10 +28,11 @@ var otherNames = []string{"README", "x.yml", "x.yaml.bak", "notes.txt", "y.json.
 
 type dm struct {
 	*env
-	cfg   dmConfig
-	dirs  []string
-	auto  bool
-	nfile int
+	cfg          dmConfig
+	dirs         []string
+	auto         bool
+	transientDen int
+	concurrent   bool
 }
 
 // genContent draws a file content: mostly valid, sometimes invalid.
@@ -93,6 +94,14 @@ func (d *dm) missingDirs() []string {
 	return out
 }
 
+// writeFile writes a regular file at path, replacing a symlink instead of writing through it.
+func (d *dm) writeFile(path string, content []byte) {
+	if e, ok := d.w.FS.Lookup(path); ok && e.Mode&memfs.S_IFMT == memfs.S_IFLNK {
+		d.admin.Unlink(memfs.AT_FDCWD, path)
+	}
+	d.admin.WriteFile(path, content, 0o644)
+}
+
 // change applies one directory change, atomically, as the administrator.
 func (d *dm) change() {
 	src := d.r.Src
@@ -114,7 +123,7 @@ func (d *dm) change() {
 				name = otherNames[src.Intn(len(otherNames))]
 			}
 			m := d.genContent(name)
-			p.WriteFile(dir+"/"+name, m.Content, 0o644)
+			d.writeFile(dir+"/"+name, m.Content)
 			d.r.Notef("write %s/%s = %s", dir, name, m)
 			return
 		case 1: // rewrite an existing file with a new revision or other content
@@ -130,7 +139,7 @@ func (d *dm) change() {
 			} else {
 				m = d.genContent(f)
 			}
-			p.WriteFile(f, m.Content, 0o644)
+			d.writeFile(f, m.Content)
 			d.r.Notef("rewrite %s = %s", f, m)
 			return
 		case 2: // replace by temp + rename
@@ -195,7 +204,7 @@ func (d *dm) change() {
 			if src.Bool(1, 2) {
 				name := specNames[src.Intn(len(specNames))]
 				m := d.genContent(name)
-				p.WriteFile(dir+"/"+name, m.Content, 0o644)
+				d.writeFile(dir+"/"+name, m.Content)
 				d.r.Notef("write %s/%s = %s", dir, name, m)
 			}
 			return
@@ -227,9 +236,32 @@ func dirmodel(r *core.Run, cfg dmConfig) {
 	src := r.Src
 	drawMapOrder(r)
 	auto := src.Bool(1, 2)
+	cred := memfs.Cred{}
+	transientDen := 0
+	concurrent := false
+	if cfg.faults {
+		auto = src.Bool(1, 3)
+		if src.Bool(2, 3) {
+			cred = memfs.Cred{UID: 1000, GID: 1000}
+		}
+		transientDen = []int{0, 0, 30, 10}[src.Intn(4)]
+		if auto {
+			// In auto-refresh mode an explicit Refresh() does not rescan, so the
+			// error entry left by a transient system-call failure legitimately
+			// stays until the next directory change; the "repair at the next
+			// refresh" oracle is only defined in manual mode.
+			transientDen = 0
+		}
+		// (the concurrent mutator is manual-mode only for the same reason; the
+		// auto-mode interplay of mutations and the watcher is C11's subject)
+		concurrent = !auto && src.Bool(1, 4)
+		r.Knob("uid", cred.UID)
+		r.Knob("transient_fault_den", transientDen)
+		r.Knob("concurrent_mutator", concurrent)
+	}
 	r.Knob("auto_refresh", auto)
-	e := newEnv(r, sched.Config{SwitchDen: 1 + src.Intn(3)}, memfs.Cred{})
-	d := &dm{env: e, cfg: cfg, auto: auto}
+	e := newEnv(r, sched.Config{SwitchDen: 1 + src.Intn(3)}, cred)
+	d := &dm{env: e, cfg: cfg, auto: auto, transientDen: transientDen, concurrent: concurrent}
 	// directory list
 	src.Begin("dirs")
 	n := 1 + src.Intn(4)
@@ -241,7 +273,7 @@ func dirmodel(r *core.Run, cfg dmConfig) {
 		d.dirs = append(d.dirs, dirPool[src.Intn(len(dirPool))])
 	}
 	src.End()
-	r.Notef("dirs %v auto=%v", d.dirs, auto)
+	r.Notef("dirs %v auto=%v uid=%d", d.dirs, auto, cred.UID)
 	// initial population
 	src.Begin("populate")
 	seen := map[string]bool{}
@@ -258,7 +290,7 @@ func dirmodel(r *core.Run, cfg dmConfig) {
 	}
 	np := src.Intn(7)
 	for i := 0; i < np; i++ {
-		d.change()
+		d.anyChange()
 	}
 	src.End()
 	// create the cache
@@ -272,7 +304,7 @@ func dirmodel(r *core.Run, cfg dmConfig) {
 		src.Begin("step")
 		k := 1 + src.Intn(3)
 		for i := 0; i < k; i++ {
-			d.change()
+			d.anyChange()
 		}
 		d.refreshPoint(fmt.Sprintf("step %d", s+1))
 		src.End()
@@ -280,20 +312,114 @@ func dirmodel(r *core.Run, cfg dmConfig) {
 	r.Trivial = false
 }
 
-// refreshPoint: manual mode Refresh(); auto mode run to quiescence, then Refresh(); then compare with the model.
+func (d *dm) anyChange() {
+	if d.cfg.faults && d.r.Src.Bool(1, 2) {
+		d.faultChange()
+		return
+	}
+	d.change()
+}
+
+// refreshPoint: manual mode Refresh(); auto mode run to quiescence, then
+// Refresh(); then compare with the model.  In the fault configuration the
+// Refresh may meet transient faults and a concurrent mutator; it is then
+// followed by a clean Refresh that must repair everything.
 func (d *dm) refreshPoint(where string) {
 	e := d.env
 	if d.auto {
 		e.w.Quiesce()
 		e.r.CheckHealth(where)
 	}
+	faulty := d.transientDen > 0 || d.concurrent
+	if faulty {
+		d.refreshAndCheck(where+" (faulty refresh)", true)
+	}
+	d.refreshAndCheck(where, false)
+}
+
+func (d *dm) refreshAndCheck(where string, faulty bool) {
+	e := d.env
+	tr := &scanTracker{d: d, cur: -1, ov: model.Overrides{DirDown: map[int]bool{}, FileDown: map[string]bool{}}, mayErr: map[string]bool{}}
 	var refreshErr error
-	e.do("Refresh", func() { refreshErr = e.cache.Refresh() })
+	histFrom := len(e.w.FS.Hist)
+	before := e.w.FS.Snapshot("/")
+	t := e.w.Spawn(e.app, "Refresh", func() { refreshErr = e.cache.Refresh() })
+	var mut *sched.Task
+	if faulty {
+		tr.task, tr.active, tr.budget, tr.den = t, d.transientDen > 0, 2, d.transientDen
+		e.w.OnOp = tr.onOp
+		e.w.Policy = tr.policy
+		if d.concurrent {
+			mut = e.w.Spawn(e.w.NewProc("admin2", memfs.Cred{}), "mutator", func() {
+				e.w.Yield(&sched.Op{Kind: "mutate", Path: ""})
+				d.anyChange()
+			})
+		}
+	}
+	e.w.Run(func() bool { return t.Done && (mut == nil || mut.Done) })
+	e.w.Join(t)
+	if mut != nil {
+		e.w.Join(mut)
+	}
+	e.w.OnOp, e.w.Policy = nil, nil
+	e.r.CheckHealth(where)
+	if !t.Done {
+		e.r.Failf("hang", t.PendingKind(), "%s: Refresh cannot finish (blocked on %s)", where, t.PendingKind())
+	}
 	if d.auto {
 		e.w.Quiesce()
 		e.r.CheckHealth(where)
 	}
-	truth := model.Observe(e.w.FS, d.dirs, e.reg, e.app.Cred)
+	opts := CheckOpts{Where: where, DirKeys: map[string]bool{}}
+	for _, dir := range d.dirs {
+		opts.DirKeys[dir] = true
+	}
+	if mut != nil {
+		// everything the mutator touched inside the scan window may be seen in either revision
+		opts.TolNames, opts.TolPaths = map[string]bool{}, map[string]bool{}
+		after := e.w.FS.Snapshot("/")
+		touch := func(p string) {
+			if p == "" {
+				return
+			}
+			for _, snap := range []map[string]memfs.Entry{before, after} {
+				for q, ent := range snap {
+					if q == p || strings.HasPrefix(q, p+"/") || strings.HasPrefix(p, q+"/") {
+						opts.TolPaths[q] = true
+						if m := e.reg.Lookup(ent.Data); m != nil && m.Valid {
+							for _, qn := range m.Qualified() {
+								opts.TolNames[qn] = true
+							}
+						}
+						if ent.Mode&memfs.S_IFMT == memfs.S_IFLNK {
+							// symlinked content: be generous, tolerate every name of every registered content it may point to
+							if te, ok := snap[ent.Target]; ok {
+								if m := e.reg.Lookup(te.Data); m != nil && m.Valid {
+									for _, qn := range m.Qualified() {
+										opts.TolNames[qn] = true
+									}
+								}
+							}
+						}
+					}
+				}
+			}
+			opts.TolPaths[p] = true
+		}
+		for _, h := range e.w.FS.Hist[histFrom:] {
+			if h.Mutating && h.Proc != e.app.Name {
+				touch(h.Path)
+				touch(h.Path2)
+			}
+		}
+		if len(opts.TolPaths) > 0 {
+			e.r.Probe("mutation_inside_scan_window")
+		}
+	}
+	if tr.fired > 0 {
+		e.r.Probe("transient_fault_in_refresh")
+	}
+	truth := model.ObserveWith(e.w.FS, d.dirs, e.reg, e.app.Cred, tr.ov)
 	var probe []string
 	for q := range truth.Defined() {
 		probe = append(probe, q)
@@ -302,23 +428,264 @@ func (d *dm) refreshPoint(where string) {
 	var v *View
 	e.do("Query", func() { v = Query(e.cache, probe) })
 	e.r.State(e.w.FS.Digest("/") + fmt.Sprint(v.Devices))
-	dirKeys := map[string]bool{}
-	for _, dir := range d.dirs {
-		dirKeys[dir] = true
+	unscannable := truth.UnscannableDirs()
+	opts.MayErr = func(p string) bool {
+		if tr.mayErr[p] {
+			return true
+		}
+		for _, u := range unscannable {
+			if p == u || strings.HasPrefix(p, u+"/") {
+				return true
+			}
+		}
+		return false
 	}
-	rule, sig, msg := CompareTruth(v, truth, CheckOpts{Where: where, DirKeys: dirKeys})
+	if d.auto && tr.fired > 0 {
+		// in auto mode an explicit Refresh() only reports; the faulty scan may not have happened at all
+		opts.SkipErrors = true
+	}
+	rule, sig, msg := CompareTruth(v, truth, opts)
 	if rule != "" {
 		e.r.Failf(rule, sig, "%s", msg)
 	}
-	// Refresh() result in manual mode: non-nil iff some Spec file is in error (conflicts may or may not count)
-	if !d.auto {
+	// Refresh() result: non-nil iff some Spec file is in error; nil when all is well
+	if !d.auto && len(opts.TolPaths) == 0 {
 		must := truth.MustErr()
 		may := truth.ConflictParticipants()
 		if len(must) > 0 && refreshErr == nil {
 			e.r.Failf("refresh-result", "nil-despite-errors", "%s: Refresh() returned nil although %v are failing Spec files", where, sortedKeys(must))
 		}
-		if len(must) == 0 && len(may) == 0 && refreshErr != nil {
-			e.r.Failf("refresh-result", "error-without-cause", "%s: Refresh() returned %v although every Spec file is valid and there is no conflict", where, refreshErr)
+		if len(must) == 0 && len(may) == 0 && truth.AllDirsReadableOrAbsent() && tr.fired == 0 && refreshErr != nil {
+			e.r.Failf("refresh-result", "error-without-cause", "%s: Refresh() returned %v although every directory is readable or absent, every Spec file is valid and there is no conflict", where, refreshErr)
 		}
 	}
+}
+
+// ---- C13: fault states, transient faults, repairs ------------------------------------
+
+func init() {
+	All["c13"] = func(r *core.Run) { dirmodel(r, dmConfig{faults: true}) }
+}
+
+// faultChange introduces or repairs one fault state, as root.
+func (d *dm) faultChange() {
+	src := d.r.Src
+	src.Begin("fault-change")
+	defer src.End()
+	p := d.admin
+	files := d.listSpecFiles()
+	dirs := d.existingDirs()
+	uniq := map[string]bool{}
+	var all []string
+	for _, x := range d.dirs {
+		if !uniq[x] {
+			uniq[x] = true
+			all = append(all, x)
+		}
+	}
+	// In auto-refresh mode only changes that raise an event in a watched
+	// directory are drawn: permission changes and writes through a symlink
+	// that leaves the directory are outside what a watcher can notice (and
+	// outside the change kinds the properties list).
+	wChmodFile, wChmodDir, wAnc := 2, 2, 2
+	if d.auto {
+		wChmodFile, wChmodDir, wAnc = 0, 0, 0
+	}
+	for try := 0; try < 4; try++ {
+		switch src.Pick(3, wChmodFile, 2, wChmodDir, 1, 2, 2, wAnc, 2, 3) {
+		case 0: // an invalid file of a drawn kind
+			if len(dirs) == 0 {
+				continue
+			}
+			dir := dirs[src.Intn(len(dirs))]
+			name := specNames[src.Intn(len(specNames))]
+			m := d.reg.Invalid(src, "")
+			d.writeFile(dir+"/"+name, m.Content)
+			d.r.Notef("write %s/%s = %s", dir, name, m)
+			return
+		case 1: // make a file unreadable / readable again
+			if len(files) == 0 {
+				continue
+			}
+			f := files[src.Intn(len(files))]
+			e, _ := d.w.FS.Lookup(f)
+			if e.Mode&0o444 == 0 {
+				p.Chmod(f, 0o644)
+				d.r.Notef("chmod 644 %s", f)
+			} else {
+				p.Chmod(f, 0)
+				d.r.Notef("chmod 000 %s", f)
+			}
+			return
+		case 2: // dangling symlink, symlink loop, symlink to a directory, symlink to a valid file elsewhere
+			if len(dirs) == 0 {
+				continue
+			}
+			dir := dirs[src.Intn(len(dirs))]
+			name := specNames[src.Intn(len(specNames))]
+			path := dir + "/" + name
+			p.Unlink(memfs.AT_FDCWD, path)
+			nk := 4
+			if d.auto {
+				nk = 3
+			}
+			switch src.Intn(nk) {
+			case 0:
+				p.Symlink("/nonexistent/target.json", path)
+				d.r.Notef("symlink %s -> dangling", path)
+			case 1:
+				p.Symlink(name, path)
+				d.r.Notef("symlink %s -> itself (loop)", path)
+			case 2:
+				p.MkdirAll("/staging/adir", 0o755)
+				p.Symlink("/staging/adir", path)
+				d.r.Notef("symlink %s -> a directory", path)
+			case 3:
+				m := d.reg.Valid(src, strings.HasSuffix(name, ".json"), gen.Opts{})
+				p.MkdirAll("/staging", 0o755)
+				t := fmt.Sprintf("/staging/t%d", d.w.FS.NextTemp())
+				p.WriteFile(t, m.Content, 0o644)
+				p.Symlink(t, path)
+				d.r.Notef("symlink %s -> %s = %s", path, t, m)
+			}
+			return
+		case 3: // directory permission faults and their repair
+			if len(dirs) == 0 {
+				continue
+			}
+			dir := dirs[src.Intn(len(dirs))]
+			e, _ := d.w.FS.Lookup(dir)
+			switch {
+			case e.Mode&0o777 != 0o755:
+				p.Chmod(dir, 0o755)
+				d.r.Notef("chmod 755 %s", dir)
+			case src.Bool(1, 2):
+				p.Chmod(dir, 0)
+				d.r.Notef("chmod 000 %s", dir)
+			default:
+				p.Chmod(dir, 0o444)
+				d.r.Notef("chmod 444 %s (listable, not searchable)", dir)
+			}
+			return
+		case 4: // a configured directory path becomes a regular file
+			dir := all[src.Intn(len(all))]
+			p.RemoveAll(dir)
+			p.MkdirAll(filepath.Dir(dir), 0o755)
+			p.WriteFile(dir, []byte("not a directory\n"), 0o644)
+			d.r.Notef("%s replaced by a regular file", dir)
+			return
+		case 5: // an ancestor of a configured directory becomes a regular file
+			dir := all[src.Intn(len(all))]
+			anc := filepath.Dir(dir)
+			if anc == "/" || uniq[anc] {
+				continue
+			}
+			p.RemoveAll(anc)
+			p.MkdirAll(filepath.Dir(anc), 0o755)
+			p.WriteFile(anc, []byte("not a directory\n"), 0o644)
+			d.r.Notef("%s (ancestor of %s) replaced by a regular file", anc, dir)
+			return
+		case 6: // repair a directory that is missing / not a directory / below a non-directory
+			dir := all[src.Intn(len(all))]
+			cur := ""
+			for _, c := range strings.Split(strings.Trim(dir, "/"), "/") {
+				cur += "/" + c
+				if e, ok := d.w.FS.Lookup(cur); ok && e.Mode&memfs.S_IFMT != memfs.S_IFDIR {
+					p.Unlink(memfs.AT_FDCWD, cur)
+				}
+			}
+			p.MkdirAll(dir, 0o755)
+			p.Chmod(dir, 0o755)
+			d.r.Notef("repair directory %s", dir)
+			return
+		case 7: // an ancestor loses search permission / gets it back
+			dir := all[src.Intn(len(all))]
+			anc := filepath.Dir(dir)
+			if anc == "/" {
+				continue
+			}
+			e, ok := d.w.FS.Lookup(anc)
+			if !ok || e.Mode&memfs.S_IFMT != memfs.S_IFDIR {
+				continue
+			}
+			if e.Mode&0o111 == 0 {
+				p.Chmod(anc, 0o755)
+				d.r.Notef("chmod 755 %s", anc)
+			} else {
+				p.Chmod(anc, 0o644)
+				d.r.Notef("chmod 644 %s (ancestor of %s not searchable)", anc, dir)
+			}
+			return
+		case 8: // remove a faulty or healthy file
+			if len(files) == 0 {
+				continue
+			}
+			f := files[src.Intn(len(files))]
+			p.Unlink(memfs.AT_FDCWD, f)
+			d.r.Notef("remove %s", f)
+			return
+		default:
+			d.change()
+			return
+		}
+	}
+}
+
+// scanTracker follows the system calls of one Refresh to learn which
+// directory index the scanner is in, and which of its calls were failed by
+// the simulator.
+type scanTracker struct {
+	d      *dm
+	task   *sched.Task
+	next   int
+	cur    int
+	ov     model.Overrides
+	mayErr map[string]bool
+	fired  int
+	budget int
+	den    int
+	active bool
+}
+
+func (s *scanTracker) onOp(t *sched.Task, op *sched.Op, dec sched.Decision) {
+	if !s.active || t != s.task {
+		return
+	}
+	if op.Kind == "lstat" && s.next < len(s.d.dirs) && op.Path == s.d.dirs[s.next] {
+		s.cur = s.next
+		s.next++
+	}
+	if dec.Err == 0 {
+		return
+	}
+	s.fired++
+	if s.cur < 0 {
+		return
+	}
+	dir := s.d.dirs[s.cur]
+	switch {
+	case op.Path == dir:
+		s.ov.DirDown[s.cur] = true
+	case op.Kind == "fstat":
+		// only a size hint for the read buffer: no effect
+	default:
+		s.ov.FileDown[fmt.Sprintf("%d:%s", s.cur, op.Path)] = true
+		s.mayErr[op.Path] = true
+	}
+}
+
+func (s *scanTracker) policy(t *sched.Task, op *sched.Op) sched.Decision {
+	if !s.active || t != s.task || s.fired >= s.budget {
+		return sched.Decision{}
+	}
+	switch op.Kind {
+	case "lstat", "open", "getdents", "read", "fstat":
+	default:
+		return sched.Decision{}
+	}
+	src := s.d.r.Src
+	if !src.Bool(1, s.den) {
+		return sched.Decision{}
+	}
+	return sched.Decision{Err: op.Faults[src.Intn(len(op.Faults))]}
 }
